@@ -21,7 +21,8 @@ EXPLANATION = (
     "delegates to the wrapped gate, get_free_symbols reads .free_symbols of sympy expressions only, "
     "Circuit.free_symbols appends on first sight while iterating operations in order; (D5) every "
     "dataclasses.replace(self, k=...) names a keyword the class's effective __init__ accepts; the custom-gate "
-    "matrix factory substitutes by position (zip of params_ordering with the arguments)."
+    "matrix factory substitutes by position (zip of params_ordering with the arguments). "
+    "(D3s) sibling agreement of the sub_symbols arms: the Expr arm substitutes simultaneously (subs(..., simultaneous=True) / xreplace), like the Symbol arm's dictionary lookup."
 )
 RULE_TEXT = "instances = bind/replace_params/free_symbols methods of all gate, operation and circuit classes, sub_symbols arms, replace() call sites; distinct by (rule, construct)"
 ASSUMPTIONS = [
